@@ -191,7 +191,10 @@ namespace GeographicLib {
                                       real& BX, real& BY, real& BZ,
                                       real& BXt, real& BYt, real& BZt) const {
     t -= _t0;
-    int n = max(min(int(floor(t / _dt0)), _nNmodels - 1), 0);
+    // Clamp in floating point so that a NaN or a huge time isn't converted to
+    // an int
+    real tn = floor(t / _dt0);
+    int n = tn >= _nNmodels - 1 ? _nNmodels - 1 : (tn > 0 ? int(tn) : 0);
     bool interpolate = n + 1 < _nNmodels;
     t -= n * _dt0;
     // Components in geocentric basis
@@ -237,7 +240,10 @@ namespace GeographicLib {
 
   MagneticCircle MagneticModel::Circle(real t, real lat, real h) const {
     real t1 = t - _t0;
-    int n = max(min(int(floor(t1 / _dt0)), _nNmodels - 1), 0);
+    // Clamp in floating point so that a NaN or a huge time isn't converted to
+    // an int
+    real tn = floor(t1 / _dt0);
+    int n = tn >= _nNmodels - 1 ? _nNmodels - 1 : (tn > 0 ? int(tn) : 0);
     bool interpolate = n + 1 < _nNmodels;
     t1 -= n * _dt0;
     real X, Y, Z, M[Geocentric::dim2_];
